@@ -3,6 +3,7 @@ package main
 // Terms: hash-consed SMT terms with light simplification.
 
 import (
+	"strconv"
 	"fmt"
 	"math/big"
 	"sort"
@@ -36,27 +37,72 @@ var (
 	nextID   = 1
 )
 
+type ikey struct {
+	op, name, sort string
+	k          string
+	b          bool
+	n          int
+	a0, a1, a2 int
+}
+
+var internS = map[ikey]*Term{}
+
 func mk(op, name string, k *big.Int, b bool, sortS string, args ...*Term) *Term {
-	var sb strings.Builder
-	sb.WriteString(op)
-	sb.WriteByte('|')
-	sb.WriteString(name)
-	sb.WriteByte('|')
+	var key string
+	if len(args) <= 3 {
+		ik := ikey{op: op, name: name, sort: sortS, b: b, n: len(args)}
+		if k != nil {
+			if k.IsInt64() {
+				ik.k = strconv.FormatInt(k.Int64(), 36)
+			} else {
+				ik.k = k.Text(36)
+			}
+		}
+		for i, a := range args {
+			if a == nil {
+				panic("nil term arg in " + op + " " + name)
+			}
+			switch i {
+			case 0:
+				ik.a0 = a.id
+			case 1:
+				ik.a1 = a.id
+			case 2:
+				ik.a2 = a.id
+			}
+		}
+		internMu.Lock()
+		if t, ok := internS[ik]; ok {
+			internMu.Unlock()
+			return t
+		}
+		t := &Term{Op: op, Name: name, K: k, B: b, Args: args, Sort: sortS, id: nextID}
+		nextID++
+		internS[ik] = t
+		internMu.Unlock()
+		return t
+	}
+	buf := make([]byte, 0, 64)
+	buf = append(buf, op...)
+	buf = append(buf, '|')
+	buf = append(buf, name...)
+	buf = append(buf, '|')
 	if k != nil {
-		sb.WriteString(k.String())
+		buf = append(buf, k.String()...)
 	}
 	if b {
-		sb.WriteByte('T')
+		buf = append(buf, 'T')
 	}
-	sb.WriteByte('|')
-	sb.WriteString(sortS)
+	buf = append(buf, '|')
+	buf = append(buf, sortS...)
 	for _, a := range args {
 		if a == nil {
 			panic("nil term arg in " + op + " " + name)
 		}
-		fmt.Fprintf(&sb, ",%d", a.id)
+		buf = append(buf, ',')
+		buf = strconv.AppendInt(buf, int64(a.id), 36)
 	}
-	key := sb.String()
+	key = string(buf)
 	internMu.Lock()
 	defer internMu.Unlock()
 	if t, ok := intern[key]; ok {
@@ -68,8 +114,27 @@ func mk(op, name string, k *big.Int, b bool, sortS string, args ...*Term) *Term 
 	return t
 }
 
-func IntK(v int64) *Term       { return mk("const", "", big.NewInt(v), false, SInt) }
-func IntBig(v *big.Int) *Term  { return mk("const", "", new(big.Int).Set(v), false, SInt) }
+const smallLo, smallHi = -1024, 1 << 16
+
+var smallInts [smallHi - smallLo + 1]*Term
+
+func IntK(v int64) *Term {
+	if v >= smallLo && v <= smallHi {
+		if t := smallInts[v-smallLo]; t != nil {
+			return t
+		}
+		t := mk("const", "", big.NewInt(v), false, SInt)
+		smallInts[v-smallLo] = t
+		return t
+	}
+	return mk("const", "", big.NewInt(v), false, SInt)
+}
+func IntBig(v *big.Int) *Term {
+	if v.IsInt64() {
+		return IntK(v.Int64())
+	}
+	return mk("const", "", new(big.Int).Set(v), false, SInt)
+}
 func BoolK(b bool) *Term       { return mk("bool", "", nil, b, SBool) }
 func Var(name, s string) *Term { return mk("var", name, nil, false, s) }
 
